@@ -37,7 +37,7 @@ PROPS.update({
         "technique": "Lean 4 invariant proofs (FIFO log, id freshness, rejection) by induction over label sequences + correspondence + Lean monitors on real traces",
         "extra": ["stress"],
         "monitors": ["C01"],
-        "corr": corr(["shutdown", "burst", "mixed", "handles", "timeouts"]),
+        "corr": corr(["eager", "shutdown", "burst", "mixed", "handles", "timeouts"]),
         "extract_items": ["ask_wait_watches_closed"],
         "assumptions": COMMON_ASSUME,
     },
@@ -48,7 +48,7 @@ PROPS.update({
         "technique": "Lean 4 invariant proof (mailbox = suffix of acceptance log) + correspondence + Lean monitors on real traces",
         "extra": ["stress"],
         "monitors": ["C02"],
-        "corr": corr(["shutdown", "burst", "mixed", "timeouts"]),
+        "corr": corr(["eager", "shutdown", "burst", "mixed", "timeouts"]),
         "extract_items": [],
         "assumptions": COMMON_ASSUME,
     },
@@ -69,7 +69,7 @@ PROPS.update({
         "note": PROOF_NOTE,
         "technique": "Lean 4 fold-invariant proof over label sequences + correspondence on captured tracing dead-letter events",
         "monitors": ["C13"],
-        "corr": corr(["shutdown", "timeouts", "burst", "mixed", "handles"]),
+        "corr": corr(["eager", "shutdown", "timeouts", "burst", "mixed", "handles"]),
         "extract_items": [],
         "assumptions": COMMON_ASSUME + ["dead-letter operation labels are compared by family (tell/ask), DESIGN.md §7/C13"],
     },
@@ -82,7 +82,7 @@ PROPS.update({
         "note": PROOF_NOTE,
         "technique": "Lean 4 fold-invariant proofs (lifecycle automaton, kill fold, result summary) over label sequences + correspondence + Lean monitors on real traces",
         "monitors": ["C04"],
-        "corr": corr(["shutdown", "mixed", "burst", "idle", "handles"]),
+        "corr": corr(["eager", "shutdown", "mixed", "burst", "idle", "handles"]),
         "extract_items": [],
         "assumptions": COMMON_ASSUME,
     },
@@ -93,7 +93,7 @@ PROPS.update({
         "technique": "Lean 4 invariant proof + theorems on translated accessor functions + exhaustive differential test of the translation",
         "monitors": ["C05"],
         "extra": ["tables"],
-        "corr": corr(["shutdown", "mixed", "idle", "burst"]),
+        "corr": corr(["eager", "shutdown", "mixed", "idle", "burst"]),
         "extract_items": ["FailurePhase", "ActorResult"],
         "assumptions": COMMON_ASSUME,
     },
@@ -107,7 +107,7 @@ PROPS.update({
         "technique": "Lean 4 invariant proofs + progress theorem over label sequences + extraction of the reply-wait protocol + correspondence",
         "extra": ["stress"],
         "monitors": ["C03"],
-        "corr": corr(["shutdown", "burst", "mixed", "handles", "timeouts", "idle"]),
+        "corr": corr(["eager", "shutdown", "burst", "mixed", "handles", "timeouts", "idle"]),
         "extract_items": ["ask_wait_watches_closed"],
         "assumptions": COMMON_ASSUME + ["Sender::closed() completes once the receiver is closed or dropped"],
     },
@@ -118,7 +118,7 @@ PROPS.update({
         "technique": "Lean 4 fold-invariant proof (budget argument over the split select) + correspondence + Lean monitors on real traces",
         "extra": ["stress"],
         "monitors": ["C06"],
-        "corr": corr(["shutdown", "burst", "mixed", "idle"]),
+        "corr": corr(["eager", "shutdown", "burst", "mixed", "idle"]),
         "extract_items": [],
         "assumptions": COMMON_ASSUME,
     },
@@ -131,7 +131,7 @@ PROPS.update({
         "note": PROOF_NOTE + " Liveness (the JoinHandle eventually resolves) is stated as progress lemmas plus the settled-trace monitor, not as a temporal theorem.",
         "technique": "Lean 4 case-analysis theorems on the step function + correspondence on handle histories + Lean monitors on settled real traces",
         "monitors": ["C07", "C01", "C02"],
-        "corr": corr(["shutdown", "handles", "mixed", "burst", "timeouts"]),
+        "corr": corr(["eager", "shutdown", "handles", "mixed", "burst", "timeouts"]),
         "extract_items": ["lifecycle", "send_paths", "handle_algebra"],
         "assumptions": COMMON_ASSUME + ["the two sender counts of an ActorRef are treated as one (both closure arms are on_stop(false); break - shape lemma lifecycle_arms)"],
     },
@@ -141,7 +141,7 @@ PROPS.update({
         "note": PROOF_NOTE,
         "technique": "Lean 4 fold-invariant proof + extraction of the select! shape + correspondence with cancel-and-restart of on_run futures",
         "monitors": ["C08"],
-        "corr": corr(["idle", "mixed", "burst"]),
+        "corr": corr(["eager", "idle", "mixed", "burst"]),
         "extra": ["stress"],
         "extract_items": ["lifecycle"],
         "assumptions": COMMON_ASSUME,
@@ -167,7 +167,7 @@ PROPS.update({
         "technique": "Lean 4 theorems on the actor model and on the wait-for protocol model + replay of real multi-actor histories on the model",
         "monitors": ["C03", "C04", "C05", "C13"],
         "extra": ["netcorr"],
-        "corr": corr(["shutdown", "mixed", "burst", "idle"]),
+        "corr": corr(["eager", "shutdown", "mixed", "burst", "idle"]),
         "extract_items": ["ask_protocol", "lifecycle"],
         "assumptions": COMMON_ASSUME + ["a panic unwinds only the panicking task (Tokio)"],
     },
@@ -251,7 +251,7 @@ PROPS.update({
 PROPS.update({
     "C19": {
         "level": "proof",
-        "text": "Kernel-checked: decision_table - for every form of the #[handler] attribute (bare, any list of result/no_log/unknown options in any order and multiplicity, name-value), every declared return type (none, any path type, any other type) and both answers to 'is it really a Result', the macro's decision (compile error / impl that logs Err after tell / impl that logs nothing) equals the documented table stated independently; corollaries no_log_never_logs, result_and_no_log_is_error, non_result_logs_nothing, result_spelling_logs. is_result_type and the should_generate block are translated from rsactor-derive/src/lib.rs on every run; option parsing and the quote! templates (Reply = declared return type, handle = self.method(msg, actor_ref).await, generated on_tell_result = `if let Err(ref e) = result { error!(..) }` only, derive(Actor) = Args Self / Infallible / Ok(args), generics forwarded) are extracted shape lemmas; the runtime calls on_tell_result only without a reply channel (handle_message_shape). Real side: a generated corpus of actor programs over the grammar return-type spelling (15: unit, plain, Result in five spellings incl. bare fmt::Result and bare/generic aliases, alias not named Result, Option, tuple, Box, reference, a user type named Result) x attribute form (11) x actor kind (struct, enum, generic, generic with where clause) x message kind (plain, generic), each with co-existing non-handler methods, compiled against the real macros: programs the model calls errors must fail to compile (without any use site, so only the macro or its output can fail), the others are run through ask and tell with Ok and Err values: replies equal the method's value, error events after tell(Err) = 1 iff the model says 'log' (with the error's Display text), 0 after ask and after tell(Ok), the handler ran once per message, derive(Actor) hands back its argument. on_tell_result once after tell / never after ask is additionally monitored (C19.adjacent) on every real correspondence trace.",
+        "text": "Kernel-checked: decision_table - for every form of the #[handler] attribute (bare, any list of result/no_log/unknown options in any order and multiplicity, name-value), every declared return type (none, any path type, any other type) and both answers to 'is it really a Result', the macro's decision (compile error / impl that logs Err after tell / impl that logs nothing) equals the documented table stated independently; corollaries no_log_never_logs, result_and_no_log_is_error, non_result_logs_nothing, result_spelling_logs. is_result_type and the should_generate block are translated from rsactor-derive/src/lib.rs on every run; option parsing and the quote! templates (Reply = declared return type, handle = self.method(msg, actor_ref).await, generated on_tell_result = `if let Err(ref e) = result { error!(..) }` only, derive(Actor) = Args Self / Infallible / Ok(args), generics forwarded) are extracted shape lemmas; the runtime calls on_tell_result only without a reply channel (handle_message_shape). Real side: a generated corpus of actor programs over the grammar return-type spelling (15: unit, plain, Result in five spellings incl. bare fmt::Result and bare/generic aliases, alias not named Result, Option, tuple, Box, reference, a user type named Result) x attribute form (11) x actor kind (struct, enum, generic, generic with where clause) x message kind (plain, generic), each with co-existing non-handler methods, compiled against the real macros: programs the model calls errors must fail to compile (without any use site, so only the macro or its output can fail), the others are run through ask and tell with Ok and Err values: replies equal the method's value, error events after tell(Err) = 1 iff the model says 'log' (with the error's Display text), 0 after ask and after tell(Ok), the handler ran once per message, derive(Actor) hands back its argument. Runtime half, kernel-checked on the actor model: tell_result_adjacent (in every run tellResult/replySent occur only immediately after the handler of the same message returned, at most one of them, never after a panic) and result_follows_kind (a tell's handler is followed by on_tell_result and no reply, an ask's by its reply and no on_tell_result); the same automaton (C19.accepts) and the kind-aware C19.adjacent run on every real correspondence trace.",
         "note": PROOF_NOTE + " rustc's own behaviour (trait resolution, `if let Err` typing) is part of the trusted base of the corpus run.",
         "technique": "Lean 4 proof of the decision table over definitions translated from the macro source + extracted templates + generated program corpus compiled and run against the real macros",
         "monitors": ["C19", "C01"],
